@@ -22,7 +22,11 @@ RULE = ("cases = corpus (defect witnesses) + N generated problems (50% consisten
         "all six comparison operators, wrong-value conclusions, two-assignment rules, Integer/Number/String/Boolean literals; "
         "25% chain/diamond shapes with a wrong-value goal rule, a cycle and a dead end), <= 8 rules, <= 10 fields incl. dotted "
         "names, each under a random strategy (DFS/BFS/iterative), max_depth 0..6, max_solutions 1 or 3, a third of them a second "
-        "time under another strategy. Each case runs BackwardEngine::query on a fresh engine (real code); observed: provable, "
+        "time under another strategy; + N/10 rival-conclusion problems under every strategy; + N/10 string-literal problems, each under "
+        "EVERY strategy (the goal-value parser exists once per strategy): literals that are the EMPTY string, one character, or contain blanks, "
+        "as query literal on a field holding that / another string, as a string one rule has to derive, as a rule condition (== and !=) that is "
+        "not satisfied by the facts and becomes a sub-goal (one and two levels, conjunctions), and string-heavy consistent-Horn KBs. "
+        "Each case runs BackwardEngine::query on a fresh engine (real code); observed: provable, "
         "get_all_facts after, undo depth after (hook), #solutions. Oracles evaluated by the Lean driver on the implementation's "
         "observations, none of them running the search model: (i) provable => goal comparison true in the facts handed back; "
         "(ii) facts handed back are in Reach, computed by explicit forward search; (iii) not provable => facts after == before, "
